@@ -25,8 +25,11 @@ def param_vectors(np_, tier, rnd):
         return [[]]
     structured = [[0.0] * np_, [math.pi / 2] * np_, [math.pi] * np_,
                   [0.3 + 0.41 * i for i in range(np_)], [-(1.1 + 0.7 * i) for i in range(np_)]]
+    # angles beyond one and two turns: half-angle gates are only 4*pi periodic
+    structured += [[7.0 + 0.9 * i for i in range(np_)], [-(9.5 + 1.3 * i) for i in range(np_)],
+                   [13.0 + 2.1 * i for i in range(np_)]]
     n = 4 if tier == "quick" else 120
-    return structured + [[rnd.uniform(-2 * math.pi, 2 * math.pi) for _ in range(np_)] for _ in range(n)]
+    return structured + [[rnd.uniform(-5 * math.pi, 5 * math.pi) for _ in range(np_)] for _ in range(n)]
 
 
 def numeric_sweep(names, tier, seed, only=None):
@@ -103,6 +106,15 @@ def run(tier, seed, replay):
                   "FOUR_QUBIT_OP_MAP", "FIVE_QUBIT_OP_MAP"):
             names += list(getattr(pm, t, {}).keys())
 
+    # the translator's view of the tables must be the runtime's view (a table filled by a loop or
+    # patched after its literal would otherwise escape both the theorem and the sweep)
+    import pyqasm.maps as pm
+    runtime = []
+    for t in ("ONE_QUBIT_OP_MAP", "ONE_QUBIT_ROTATION_MAP", "TWO_QUBIT_OP_MAP", "THREE_QUBIT_OP_MAP",
+              "FOUR_QUBIT_OP_MAP", "FIVE_QUBIT_OP_MAP"):
+        runtime += list(getattr(pm, t, {}).keys())
+    table_drift = sorted(set(runtime) ^ set(names))
+    names = names + [n for n in runtime if n not in names]
     evals, fails, unspecified, samples = numeric_sweep(names, tier, seed)
     new_fail = [f for f in fails if f[0] not in known_names]
     for n, vals, src, det in new_fail:
@@ -120,7 +132,7 @@ def run(tier, seed, replay):
         if e["status"] == "fixed" and still:
             chk.violation("regressed_%s" % e["id"], {"kind": "gate", "finding": e})
 
-    proof_ok = res.ok and not bad_axioms and not hyg
+    proof_ok = res.ok and not bad_axioms and not hyg and not table_drift
     if not proof_ok and not new_fail:
         # widen the search around what the model rejects before giving up
         culprits = failing_model_gates() if res.ok is False and not res.translator_error else None
@@ -135,6 +147,7 @@ def run(tier, seed, replay):
         else:
             chk.violation("proof_broken",
                           {"kind": "proof", "broken": res.failed_target or res.translator_error or
+                           ("translated tables differ from runtime tables on %s" % table_drift if table_drift else None) or
                            ("axioms %s" % bad_axioms if bad_axioms else "hygiene %s" % hyg),
                            "model_rejects": culprits, "theorem": "Props/C05.v C05_partial / c05_all_checked",
                            "log_tail": res.log[-1500:]}, no_input=True)
